@@ -12,7 +12,7 @@ import amod   # noqa: E402
 import tlc    # noqa: E402
 
 RE_BROKEN = re.compile(r'<<"BROKEN", (\d+), (\d+), "(\w+)">>')
-INV_PROP = {"OnlyExpected": "C02", "NoDuplicate": "C02", "InOrder": "C02", "CbSafe": "C04", "FiredOnce": "C05"}
+INV_PROP = {"OnlyExpected": "C02", "NoDuplicate": "C02", "InOrder": "C02", "CbSafe": "C04", "RaisedNeverFires": "C04", "FiredOnce": "C05"}
 
 
 def validate(work, traces):
@@ -56,7 +56,7 @@ def mc(res, work):
     with open(mod, "w") as f:
         f.write("---- MODULE MC ----\nEXTENDS Observer\nScen == {[ne |-> 2, nd |-> 2, lineage |-> <<{1}, {1, 2}>>, held |-> {2}, ordered |-> TRUE]}\n"
                 "Small == Len(delivered) <= 2 /\\ Len(fired) <= 2\n====\n")
-    for inv in ("NoDuplicate", "InOrder", "CbSafe", "FiredOnce"):
+    for inv in ("NoDuplicate", "InOrder", "CbSafe", "RaisedNeverFires", "FiredOnce"):
         cfg = os.path.join(d, "MC_%s.cfg" % inv)
         with open(cfg, "w") as f:
             f.write("SPECIFICATION Spec\nCONSTANTS\n  Scenarios <- Scen\nINVARIANT %s\nCONSTRAINT Small\nCHECK_DEADLOCK FALSE\n" % inv)
@@ -103,7 +103,7 @@ def run(tier, seed, mutant=None, only_validate=False):
                 at, inv = broken[r["id"]]
                 prop = INV_PROP.get(inv, "C02")
                 why = "after event #%d %s the monitor's invariant %s is false" % (at, r["ev"][at - 1] if 0 < at <= len(r["ev"]) else "", inv)
-                kind = "premature-callback" if inv == "CbSafe" else "monitor"
+                kind = "premature-callback" if inv == "CbSafe" else "callback-after-raise" if inv == "RaisedNeverFires" else "monitor"
                 role = ""
                 if inv == "CbSafe" and 0 < at <= len(r["ev"]) and r["ev"][at - 1]["ev"] == "Fire":
                     # which element of the value being consumed had its callback fired
@@ -135,7 +135,7 @@ def run(tier, seed, mutant=None, only_validate=False):
         res.nontrivial = len(nt)
         res.rule = ("acomposite: 13 pipelines mixing buffer / delay / rate_limit / map_async with partition, sliding_window, unique, filter, "
                     "flatten, accumulate, zip, combine_latest, slice x consumer style x random schedules over {emit, loop iteration, finish "
-                    "oldest / newest consumer, finish function, advance clock}; expected values, lineage and held elements come from the "
+                    "oldest / newest consumer, fail a consumer, finish function, advance clock}; expected values, lineage and held elements come from the "
                     "synchronous twin; non-trivial = >= 2 expected deliveries and a consumer completion chosen by the driver")
         for r in runs[:2]:
             res.samples.append({k: r[k] for k in ("pipe", "cons", "schedule", "expected", "lineage", "held", "ev")})
